@@ -206,7 +206,11 @@ func WriteGB(rec *GBRecord, lay GBLayout) string {
 			if q.Kind == QualTranslation {
 				lines = hardWrap(q.Text(), lay.Width-21)
 			} else {
-				lines = wrapWords(q.Text(), lay.Width-21)
+				// a run of blanks inside a value belongs to the value: lines are broken at single blanks only
+				lines = wrapWords(strings.ReplaceAll(q.Text(), "  ", "\x00\x00"), lay.Width-21)
+				for i := range lines {
+					lines[i] = strings.ReplaceAll(lines[i], "\x00", " ")
+				}
 			}
 			for _, l := range lines {
 				sb.WriteString(strings.Repeat(" ", 21) + l + "\n")
@@ -417,6 +421,14 @@ func RandGBRecord(r *rand.Rand, seqLen int, maxFeatures int, maxText int) *GBRec
 			switch k := r.Intn(10); {
 			case k < 6:
 				q = GBQual{Key: gbTextKeys[r.Intn(len(gbTextKeys))], Value: txt(250), Kind: QualText}
+				if r.Intn(6) == 0 { // e.g. "alpha  beta": two blanks between two words, anywhere in the value
+					ws := strings.Split(q.Value, " ")
+					for n := 1 + r.Intn(3); n > 0 && len(ws) > 1; n-- {
+						i := 1 + r.Intn(len(ws)-1)
+						ws[i] = " " + strings.TrimLeft(ws[i], " ")
+					}
+					q.Value = strings.Join(ws, " ")
+				}
 			case k < 8:
 				q = GBQual{Key: gbNumKeys[r.Intn(len(gbNumKeys))], Value: fmt.Sprint(1 + r.Intn(30)), Kind: QualNumber}
 			case k < 9:
